@@ -183,6 +183,15 @@ theorem gate_bb_input (n f : Name) : gateBody "bb_input" n [f] = .ok (bufCls (.n
 theorem gate_not (n f : Name) : gateBody "not" n [f] = .ok (notCls (.node n) (.node f)) := by
   simp [gateBody, notCls, T_cnf, Expected.cnf, instStmt, instClause, TEnv.get]
 
+theorem gate_buf_nil (n : Name) : gateBody "buf" n [] = .ok [[P (.node n), N (.node n)]] := by
+  simp [gateBody, T_cnf, Expected.cnf, instStmt, instClause, TEnv.get]
+
+theorem gate_bb_input_nil (n : Name) : gateBody "bb_input" n [] = .ok [[P (.node n), N (.node n)]] := by
+  simp [gateBody, T_cnf, Expected.cnf, instStmt, instClause, TEnv.get]
+
+theorem gate_not_nil (n : Name) : gateBody "not" n [] = .ok [[P (.node n), N (.node n)]] := by
+  simp [gateBody, T_cnf, Expected.cnf, instStmt, instClause, TEnv.get]
+
 theorem gate_zero (n : Name) (fi : List Name) : gateBody "0" n fi = .ok [[N (.node n)]] := by
   simp [gateBody, T_cnf, Expected.cnf, instStmt, instClause, TEnv.get]
 
@@ -518,6 +527,25 @@ theorem spec_not (n f : Name) : ∃ cls, nodeBody "not" n [f] = .ok cls ∧ Spec
   refine ⟨_, body_not_like "not" (by simp) n f, nodeVars_not n f, fun σ => ?_⟩
   rw [notCls_sat, gateEq_not]
 
+theorem gateEq_undriven (σ : Var → Bool) (t : String) (ht : t ∈ ["buf", "not", "bb_input"]) (n : Name) :
+    GateEq σ t n [] ↔ True := by
+  simp only [List.mem_cons, List.not_mem_nil, or_false] at ht
+  have h : gateFn t [] = none := by rcases ht with rfl | rfl | rfl <;> simp [gateFn]
+  simp only [GateEq, List.map_nil, h, forall_none]
+
+/-- an undriven buf / not / bb_input is a free node: the encoder emits the tautology `[n, ¬n]` -/
+theorem spec_undriven (t : String) (ht : t ∈ ["buf", "not", "bb_input"]) (n : Name) :
+    ∃ cls, nodeBody t n [] = .ok cls ∧ Spec t n [] cls := by
+  refine ⟨[[P (.node n), N (.node n)]], ?_, ?_, fun σ => ?_⟩
+  · rw [nodeBody, demoteTy_multi _ _ (by simp)]
+    simp only [List.mem_cons, List.not_mem_nil, or_false] at ht
+    rcases ht with rfl | rfl | rfl
+    · exact gate_buf_nil n
+    · exact gate_not_nil n
+    · exact gate_bb_input_nil n
+  · intro cl hcl l hl; simp at hcl; subst hcl; simp at hl; rcases hl with rfl | rfl <;> exact ⟨n, rfl⟩
+  · rw [gateEq_undriven σ t ht]; simp [CNF.sat, Clause.sat, Lit.sat]
+
 theorem spec_zero (n : Name) (fi : List Name) : ∃ cls, nodeBody "0" n fi = .ok cls ∧ Spec "0" n fi cls := by
   refine ⟨_, by rw [nodeBody, demoteTy_other _ (by simp), gate_zero], ?_, fun σ => ?_⟩
   · intro cl hcl l hl; simp at hcl; subst hcl; simp at hl; subst hl; exact ⟨n, rfl⟩
@@ -643,7 +671,7 @@ theorem spec_xnor_multi (n : Name) (fi : List Name) (h2 : 2 ≤ fi.length) :
 /-- every supported node type (except `x`) with a lint-clean fan-in count is encoded exactly -/
 theorem node_spec (t0 : String) (n : Name) (fi : List Name)
     (hsup : t0 ∈ Expected.supported_types) (hx : t0 ≠ "x")
-    (hsingle : t0 ∈ ["buf", "not", "bb_input"] → fi.length = 1)
+    (hsingle : t0 ∈ ["buf", "not", "bb_input"] → fi.length ≤ 1)
     (hmulti : t0 ∈ ["and", "nand", "or", "nor", "xor", "xnor"] → 1 ≤ fi.length) :
     ∃ cls, nodeBody t0 n fi = .ok cls ∧ NodeSpec t0 n fi cls := by
   simp only [Expected.supported_types, Expected.addable_types, Expected.primitive_gates, List.cons_append,
@@ -652,6 +680,7 @@ theorem node_spec (t0 : String) (n : Name) (fi : List Name)
   · -- buf
     have h1 := hsingle (by simp)
     match fi, h1 with
+    | [], _ => obtain ⟨cls, h, hs⟩ := spec_undriven "buf" (by simp) n; exact ⟨cls, h, hs.toNodeSpec⟩
     | [f], _ => obtain ⟨cls, h, hs⟩ := spec_buf n f; exact ⟨cls, h, hs.toNodeSpec⟩
   · obtain ⟨cls, h, hs⟩ := spec_and n fi; exact ⟨cls, h, hs.toNodeSpec⟩
   · obtain ⟨cls, h, hs⟩ := spec_or n fi; exact ⟨cls, h, hs.toNodeSpec⟩
@@ -664,6 +693,7 @@ theorem node_spec (t0 : String) (n : Name) (fi : List Name)
   · -- not
     have h1 := hsingle (by simp)
     match fi, h1 with
+    | [], _ => obtain ⟨cls, h, hs⟩ := spec_undriven "not" (by simp) n; exact ⟨cls, h, hs.toNodeSpec⟩
     | [f], _ => obtain ⟨cls, h, hs⟩ := spec_not n f; exact ⟨cls, h, hs.toNodeSpec⟩
   · obtain ⟨cls, h, hs⟩ := spec_nand n fi; exact ⟨cls, h, hs.toNodeSpec⟩
   · obtain ⟨cls, h, hs⟩ := spec_nor n fi; exact ⟨cls, h, hs.toNodeSpec⟩
@@ -680,6 +710,7 @@ theorem node_spec (t0 : String) (n : Name) (fi : List Name)
   · -- bb_input
     have h1 := hsingle (by simp)
     match fi, h1 with
+    | [], _ => obtain ⟨cls, h, hs⟩ := spec_undriven "bb_input" (by simp) n; exact ⟨cls, h, hs.toNodeSpec⟩
     | [f], _ => obtain ⟨cls, h, hs⟩ := spec_bb_input n f; exact ⟨cls, h, hs.toNodeSpec⟩
   · obtain ⟨cls, h, hs⟩ := spec_bb_output n fi; exact ⟨cls, h, hs.toNodeSpec⟩
 
